@@ -137,6 +137,7 @@ pub fn f7_tw_newchunk<const M: usize, const TRY: bool>() {
                 drop(e);
                 assert!(DROPS[3] == 1, "[C11] error value not delivered exactly once");
                 assert!(NREC == 2, "[C11] expected exactly one new chunk for the Result slot");
+                assert!(NFREE == 0 && ledger_live_count() == 2, "[C03] a chunk was given back to the global allocator by a &self operation (outside reset/drop)");
                 let nreq = NREQ;
                 FORBID_ALLOC = true;
                 let again = bump.try_alloc_layout(Layout::new::<Result<T, E>>());
@@ -204,14 +205,16 @@ pub fn f7_tw_nested<const M: usize, const RELEASE: bool>() {
 // ---------------------------------------------------------------------------
 // C11/C02: try_fill slices
 // ---------------------------------------------------------------------------
-pub fn f7_try_fill<const M: usize, const ITER: bool>() {
+pub fn f7_try_fill<const M: usize, const ITER: bool, const USABLE: usize>() {
     let mut back = Backing::<304>([0u8; 304]);
     unsafe {
         calls_reset();
         let off: usize = kani::any();
-        kani::assume(off == 256 || off == 100 || off == 16 || off == 0);
-        kani::assume(off & (M - 1) == 0);
-        let c = small_chunk::<M>(back.0.as_mut_ptr(), 256, off);
+        kani::assume(off == USABLE || off == 100 || off == 16 || off == 0);
+        kani::assume(off & (M - 1) == 0 && off <= USABLE);
+        // USABLE = 16: a chunk that holds the slice once but not twice (the reservation must
+        // really be handed back for the follow-up request to be served)
+        let c = small_chunk::<M>(back.0.as_mut_ptr(), USABLE, off);
         let bump = mk_bump::<M>(c.footer, None);
         let cap0 = bump.chunk_capacity();
         let len: usize = kani::any();
@@ -521,9 +524,11 @@ f7cut!(f7_tw_nested_keep_m1, 6, f7_tw_nested::<1, false>());
 f7cut!(f7_tw_nested_keep_m16, 6, f7_tw_nested::<16, false>());
 f7cut!(f7_tw_nested_release_m1, 6, f7_tw_nested::<1, true>());
 f7cut!(f7_tw_nested_release_m8, 6, f7_tw_nested::<8, true>());
-f7cut!(f7_try_fill_with_m1, 6, f7_try_fill::<1, false>());
-f7cut!(f7_try_fill_with_m8, 6, f7_try_fill::<8, false>());
-f7cut!(f7_try_fill_iter_m1, 6, f7_try_fill::<1, true>());
+f7cut!(f7_try_fill_with_m1, 6, f7_try_fill::<1, false, 256>());
+f7cut!(f7_try_fill_with_tiny_m1, 6, f7_try_fill::<1, false, 16>());
+f7cut!(f7_try_fill_with_tiny_m8, 6, f7_try_fill::<8, false, 16>());
+f7cut!(f7_try_fill_with_m8, 6, f7_try_fill::<8, false, 256>());
+f7cut!(f7_try_fill_iter_m1, 6, f7_try_fill::<1, true, 256>());
 f7cut!(f7_init_values_m1, 6, f7_init::<1, 0>());
 f7cut!(f7_init_values_m8, 6, f7_init::<8, 0>());
 f7cut!(f7_init_copy_m1, 14, f7_init::<1, 1>());
